@@ -11,6 +11,10 @@ EXTENDS StateMachine
 
 VARIABLE pending
 
+\* the simulation configurations place the config key kn1 in the user namespace n1 (CfgTenant <- CfgTenantNs): publishing
+\* and removing it makes n1 a namespace "in use" - listed under its id until a user names it, and never in a snapshot
+CfgTenantNs(k) == IF k = "kn1" THEN "n1" ELSE IF k = "kn2" THEN "n2" ELSE ""
+
 Kinds == {"apply", "apply", "batch", "compact", "restart", "interrupt"}
 
 \* one request: first its kind (uniformly among the kinds that have instances), then one instance - so that a
